@@ -4,7 +4,7 @@ from sim.fault_scenario import FaultEnumScenario
 PROP = "C09"
 RUN_WALL_S = 900  # wall-clock limit of one simulated run (a run that never returns is a violation)
 LEVEL = "fault_enumeration"
-RUNS = {"quick": 160, "thorough": 6000}
+RUNS = {"quick": 120, "thorough": 6000}
 BUDGET_S = {"quick": 50, "thorough": 840}
 CHUNK = 2
 RULE = ('One evaluation = one execution of `gwf run` with one injected interruption. Scenarios (workflow <= 6 targets + pre-history with in-flight/failed jobs) are sampled; per scenario the interruption points of its run are ENUMERATED from a fault-free dry execution: every scheduler command x {non-zero exit with message, error on stderr with exit 0, garbage stdout, silent non-zero exit}, Ctrl-C at every seam event, hard kill before every seam event and after every scheduler command (job accepted, id lost), ENOSPC at every file mutation; on the local pool every request/reply: kill before/after each send, garbage reply, connection closed, connection reset (later sends fail with EPIPE). After each: the next `gwf status` must start, neither the interrupted run nor the next run may submit a target whose accepted job is still pending/running (kill-inside-submission exempt for that job), remaining targets get prerequisites pointing at jobs accepted before the interruption, hashes only for accepted submissions. Non-trivial = scenario whose run accepted at least one job.')
